@@ -25,7 +25,8 @@ Definition run (prop : list N) (case obs : sx) : sx :=
   else if bytes_eqb prop (sym_of_string "C13") then run_hub case obs
   else if bytes_eqb prop (sym_of_string "C06") then run_C06 case obs
   else if bytes_eqb prop (sym_of_string "C03") then run_sessions case obs
-  else if bytes_eqb prop (sym_of_string "C02") then run_sessions case obs
+  else if bytes_eqb prop (sym_of_string "C02") then
+    match case with SL (t :: _) => if is_sym "chan" t then run_C05 case obs else run_sessions case obs | _ => bad_case end
   else bad_case.
 
 Extraction Language OCaml.
